@@ -1,4 +1,5 @@
 import Capnp.Model.CopyStruct
+import Capnp.Props.C17
 /-!
 # C16 — deep copy: the data and pointer sections of the destination after `copyStruct`
 
@@ -109,5 +110,54 @@ theorem paddst_variant_touches_neighbour :
 /-- the hypotheses are satisfiable: a two-byte element inside a ten-byte segment -/
 example : (copyInto [0xbb, 0xbb, 0xbb, 0xbb, 0xbb, 0xbb, 0xbb, 0xbb, 0xcc, 0xcc] 2 2 [1, 2, 3, 4, 5, 6, 7, 8]) =
     [0xbb, 0xbb, 1, 2, 0xbb, 0xbb, 0xbb, 0xbb, 0xcc, 0xcc] := by decide
+
+/-! ## version rules: round trip through a larger struct, idempotence, lossless truncation (with C17's equality) -/
+section versions
+open Capnp.Spec.Value
+
+/-- **upgrade then downgrade is lossless**: copying a data section into a larger (newer-version) struct and
+    back into one of the original size returns the original bytes -/
+theorem copy_roundtrip (src : List Nat) (n : Nat) (h : src.length ≤ n) :
+    copyData (copyData src n) src.length = src := by
+  unfold copyData
+  rw [List.take_of_length_le h]
+  simp only [List.length_append, List.length_replicate]
+  rw [List.take_append_of_le_length (Nat.le_refl _), List.take_length]
+  have : src.length - (src.length + (n - src.length)) = 0 := by omega
+  rw [this]; simp
+
+/-- copying is idempotent: copying the copy into a struct of the same size changes nothing -/
+theorem copy_idem (src : List Nat) (n : Nat) : copyData (copyData src n) n = copyData src n := by
+  have hl : (copyData src n).length = n := copyData_length src n
+  unfold copyData at hl ⊢
+  rw [List.take_of_length_le (by omega), hl, Nat.sub_self]; simp
+
+/-- **truncation loses only what the version rules allow**: when every byte beyond the destination's size is zero
+    (the fields the older schema does not know are at their defaults) the truncated copy is `Equal` to the source -/
+theorem copy_trunc_eq (src : List Nat) (n : Nat) (hz : (src.drop n).all (· == 0) = true) :
+    dataEq (copyData src n) src = true := by
+  by_cases h : src.length ≤ n
+  · have := Capnp.Props.C17.dataEq_pad src (n - src.length)
+    unfold copyData; rw [List.take_of_length_le h]; exact this
+  · have hk : src.drop n = List.replicate (src.drop n).length 0 := by
+      generalize src.drop n = t at hz
+      induction t with
+      | nil => rfl
+      | cons x t ih =>
+        simp only [List.all_cons, Bool.and_eq_true, beq_iff_eq] at hz
+        simp only [List.length_cons, List.replicate_succ, hz.1]; congr 1; exact ih hz.2
+    have hc : copyData src n = src.take n := by
+      unfold copyData
+      have : n - src.length = 0 := by omega
+      rw [this]; simp
+    have hs : src = src.take n ++ List.replicate (src.drop n).length 0 := by
+      rw [← hk, List.take_append_drop]
+    rw [hc, Capnp.Props.C17.dataEq_symm]
+    have := Capnp.Props.C17.dataEq_pad (src.take n) (src.drop n).length
+    rw [← hs] at this; exact this
+
+example : copyData (copyData [1, 2] 8) 2 = [1, 2] := copy_roundtrip [1, 2] 8 (by decide)
+example : dataEq (copyData [1, 2, 0, 0] 2) [1, 2, 0, 0] = true := copy_trunc_eq _ _ (by decide)
+end versions
 
 end Capnp.Props.C16
